@@ -214,6 +214,9 @@ class HealSparseMap(object):
             npix = 1
         else:
             cov_pixels = np.atleast_1d(cov_pixels)
+            # Each coverage pixel gets exactly one block: drop repeats (keeping the order).
+            _, first = np.unique(cov_pixels, return_index=True)
+            cov_pixels = cov_pixels[np.sort(first)]
             cov_map = HealSparseCoverage.make_from_pixels(nside_coverage, nside_sparse,
                                                           cov_pixels)
             # We need to allocate the overflow pixel
